@@ -292,7 +292,8 @@ def gen_case(r, idx, profile):
     def stray():
         v = r.random()
         if v < 0.2:
-            g.sn(regack(r.choice([1, 2]), r.choice([1, g.mid, 65535]), 0))
+            # (a TopicID of its own: one ID for two names makes the Go map lookup by ID nondeterministic)
+            g.sn(regack(alias(), r.choice([1, g.mid, 65535]), 0))
         elif v < 0.35:
             g.sn(puback(1, r.choice([1, g.mid]), 0))
         elif v < 0.5:
